@@ -109,7 +109,7 @@ def run_numpyreplay(ctx, depth):
         arr = np.zeros((2, 3, 2), dtype=complex)
         for i in itertools.product(range(2), range(3), range(2)):
             arr[i] = atom_value([x + 1 for x in i])
-        for op in s["ops"]:
+        for step, op in enumerate(s["ops"]):
             name, args = op[0], op[1:]
             if name == "swapaxes":
                 arr = np.swapaxes(arr, args[0], args[1])
@@ -120,7 +120,7 @@ def run_numpyreplay(ctx, depth):
                 arr = arr.reshape(arr.shape[:ax] + (arr.shape[ax] * arr.shape[ax + 1],) + arr.shape[ax + 2:])
             elif name == "tensordot":
                 ax = args[0]
-                U = np.array([[sym_value(100000000 + r * 1000 + p) for p in range(1, arr.shape[ax] + 1)]
+                U = np.array([[sym_value(100000000 + 1000000 * step + r * 1000 + p) for p in range(1, arr.shape[ax] + 1)]
                               for r in (1, 2)])
                 arr = np.tensordot(U, arr, (1, ax))
             elif name == "normmul":
